@@ -508,11 +508,14 @@ prop("C12",
 def c13_units(tier):
     n = scale(tier, 5000, 120000); q = tier == "quick"
     u = []
+    def mon(cfg):
+        return LibCfg(name=cfg.name + "+allocmon", cc=cfg.cc, opt=cfg.opt, cflags=cfg.cflags, defs=cfg.defs, vec128=cfg.vec128, vec256=cfg.vec256, alloc_redirect=True)
     for name, cfg, a in (("", SHIPPED, ["--vec128", "1", "--vec256", "1"]), ("-novec256", NOVEC256, ["--vec128", "1", "--vec256", "0"]),
                          ("-nosimd", NOSIMD, ["--vec128", "0", "--vec256", "0"])):
         main = name == ""
-        u.append(Unit("c13-real" + name, ["c13.cpp", "tramp.S"], cfg, cases=n, shards=(4 if main else 1) if q else 8, args=a + ["--cases", "real"]))
-        u.append(Unit("c13-model" + name, ["c13.cpp", "tramp.S"], cfg, cases=n, shards=(6 if main else 2) if q else 16, args=a + ["--cases", "model"]))
+        srcs = ["c13.cpp", "tramp.S", "mon_alloc.c"]
+        u.append(Unit("c13-real" + name, srcs, mon(cfg), cases=n, shards=(4 if main else 1) if q else 8, args=a + ["--cases", "real"]))
+        u.append(Unit("c13-model" + name, srcs, mon(cfg), cases=n, shards=(6 if main else 2) if q else 16, args=a + ["--cases", "model"]))
     return u
 
 prop("C13",
@@ -525,7 +528,8 @@ prop("C13",
            "bits, leaf-7 sub-leaf table with max sub-leaf 0..2, Intel vs AMD out-of-range-leaf behaviour, XCR0 values, and the "
            "garbage ECX delivered whenever plain __cpuid is used); oracle: selected back end (vtable identity / parallel vtable + "
            "size) == widest compiled-in back end the (real or modelled) CPU and OS support, advertised parallel size matches, "
-           "XGETBV never executed without OSXSAVE, identical on every call; for the shipped, VEC256-less and SIMD-less builds; each "
+           "XGETBV never executed without OSXSAVE, identical on every call - also after an init whose allocation was made to fail (10 % of the init calls) "
+           "- for the shipped, VEC256-less and SIMD-less builds; each "
            "modelled case runs in a forked child of a process that never calls the library (a probe result cached by the library "
            "would be legitimate here - a real CPU does not change - and must not make cases influence each other); "
            "non-trivial = real-CPU case with non-zero ECX garbage, or a model that is not 'everything present'"),
